@@ -15,7 +15,7 @@ from vf.common import shimmed, real
 from .validators import crc16_reference, CrcStub
 
 KINDS = ("drop", "answer", "short_garbage", "bad_checksum", "exception", "two_fragments", "lone_fragment", "duplicate",
-         "peer_closes", "send_error", "sym_garbage", "late_answer")
+         "peer_closes", "send_error", "sym_garbage", "late_answer", "dup_fragment")
 K = {n: i for i, n in enumerate(KINDS)}
 ERRNOS = (errno.ECONNREFUSED, errno.ENETUNREACH, errno.EHOSTUNREACH, errno.ECONNRESET)
 CONNECT = ("ok", "refused", "unreachable", "never")
@@ -156,10 +156,11 @@ class Scenario:
 
         def deliver(sock, item, when_delay, tag):
             loop = loop_of()
+            g = self.generation[0]
 
             def cb():
-                if sock.closed:
-                    return
+                if sock.closed or g != self.generation[0]:
+                    return      # datagrams still in flight when their request has completed are lost (see history.py)
                 sock.rx.append(item)
                 delivered.append((world.now, tag, sock.fd))
             loop.call_later(when_delay, cb)
@@ -193,6 +194,10 @@ class Scenario:
                 code = script.small(f"exc{req}_{i}", self.exc_range[0], self.exc_range[1])
                 deliver(sock, bytes(exception_response(tcp, data, code)) if not tcp else
                         bytes(SBytes(exception_response(tcp, data, code).items).concrete()), d, "exception")
+            elif name == "dup_fragment":
+                lo = 9 if tcp else 5
+                deliver(sock, good[:lo + 1], d, "frag1")
+                deliver(sock, good[:lo + 1], d + script.delay(i, "e", req), "frag1-dup")
             elif name in ("two_fragments", "lone_fragment"):
                 lo = 9 if tcp else 5
                 if self.split_choices == "all":
@@ -224,6 +229,7 @@ class Scenario:
         return on_send, on_connect
 
     connect_faults = False
+    generation = (0,)
     exc_range = (2, 2)          # C04: one exception code (C08 explores the codes)
     split_choices = "two"       # C04: header-only and all-but-two-bytes splits (C07 explores every split point)
 
